@@ -1582,7 +1582,7 @@ func c14TextChunking(quick bool) C14Group {
 		cutsA, cutsB, cutsC = 3, 3, 2
 	}
 	// status lines
-	msgs := append([]string{"", "OK", "a", "$1", "*2", "ERR unknown command"}, long...)
+	msgs := append([]string{"", "OK", "a", "$1", "*2", "ERR unknown command"}, long...) // (a status line cannot carry CR / LF in this format: only argument lists are binary-safe)
 	if !quick {
 		msgs = append(msgs, huge)
 	}
@@ -1680,13 +1680,68 @@ func c14TextChunking(quick bool) C14Group {
 		seen[key] = i
 		tasks[i] = func() *c14Acc { return c14RunTextItem(it) }
 	}
+	// sequences of DIFFERENT reply forms on one parser (a client connection reads them all through one): every
+	// ordered triple of an array of two, an array of three, a single bulk, a status line and an error line, uncut,
+	// with every single cut and byte by byte
+	type seqForm struct {
+		enc  []byte
+		want []string
+		typ  int
+		name string
+	}
+	forms := []seqForm{
+		{builder.BuildResponse(true, "", []string{"a", "b"}), []string{"a", "b"}, 4, "*2"},
+		{builder.BuildResponse(true, "", []string{"a", "$1", "c"}), []string{"a", "$1", "c"}, 4, "*3"},
+		{builder.BuildResponse(true, "", []string{"v"}), []string{"v"}, 3, "$"},
+		{builder.BuildResponse(true, "OK", nil), []string{"OK"}, 1, "+"},
+		{builder.BuildResponse(false, "ERR x", nil), []string{"ERR", "x"}, 2, "-"},
+	}
+	for i := range forms {
+		for j := range forms {
+			for k := range forms {
+				fs := []seqForm{forms[i], forms[j], forms[k]}
+				tasks = append(tasks, func() *c14Acc {
+					acc := c14NewAcc()
+					rbuf, wbuf := make([]byte, c14RbufSize), make([]byte, c14RbufSize)
+					var stream []byte
+					name := ""
+					for _, f := range fs {
+						stream = append(stream, f.enc...)
+						name += f.name + " "
+					}
+					judge := func(cuts []int) {
+						acc.evals++
+						acc.distinct++
+						o := c14Feed(false, stream, cuts, rbuf, wbuf)
+						ok := o.err == "" && !o.pending && len(o.cmds) == len(fs)
+						for x := 0; ok && x < len(fs); x++ {
+							ok = fmt.Sprint(o.cmds[x]) == fmt.Sprint(fs[x].want) && o.types[x] == fs[x].typ
+						}
+						if !ok {
+							acc.add("C14:text-reply-sequence", "reply forms "+name, func() string {
+								return fmt.Sprintf("replies %son ONE parser, stream %s cut at %v: parsed %s types %v err=%q pending=%v", name, c14Q(string(stream)), cuts, c14QLL(o.cmds), o.types, o.err, o.pending)
+							})
+						}
+					}
+					judge(nil)
+					all := make([]int, 0, len(stream))
+					for c := 1; c < len(stream); c++ {
+						judge([]int{c})
+						all = append(all, c)
+					}
+					judge(all)
+					return acc
+				})
+			}
+		}
+	}
 	acc := c14Run(tasks)
 	acc.samples = append(acc.samples,
 		fmt.Sprintf("%d items (streams); duplicate streams: %d", len(items), dupStreams),
 		fmt.Sprintf("sample: BuildRequest(%s) = %s, 2^%d chunkings", c14QL([]string{"a"}), c14Q(string(builder.BuildRequest([]string{"a"}))), len(builder.BuildRequest([]string{"a"}))-1),
 		fmt.Sprintf("sample: BuildRequest(%s) = %d bytes, cut positions %v", c14QL([]string{long[4], "\r\n"}), len(builder.BuildRequest([]string{long[4], "\r\n"})), c14CutPositions(builder.BuildRequest([]string{long[4], "\r\n"}))),
 		fmt.Sprintf("sample: BuildResponse(false, %q) = %s wants args %s", "ERR unknown command", c14Q(string(builder.BuildResponse(false, "ERR unknown command", nil))), c14QL([]string{"ERR", "unknown command"})))
-	return acc.groupMax("text-chunking", 8) // 2 Sigs x forms req,+,-,$,* : one witness each
+	return acc.groupMax("text-chunking", 9) // 2 Sigs x forms req,+,-,$,* : one witness each, + reply sequences
 }
 
 // ---------------------------------------------------------------------------------------------
